@@ -32,6 +32,7 @@ def gen_requests(ctx):
         script = [rng.choice([0, 1, 2, 2, 3, 3, 4, 5, 6, 6, 6, 7, 8]) for _ in range(rng.randint(1, 6))] if direction == "scripted" else []
         x0 = rng.vec(prob.n, 2.0)
         y0 = rng.vec(prob.m, 1.0); S0 = [rng.choice([0.5, 1.0, 4.0, 10.0]) for _ in range(prob.m)]
+        if rng.random() < 0.25: prob.prov = rng.choice([0x80, 0x20, 0x40, 0x10, 0xa0, 0xfe, 0x0e, rng.randrange(0, 256) & 0xfe])   # provider mix (supplied members poison the work buffers)
         reqs.append(sl.Request(prob, x0, y0, S0, solver, direction, "inner", params, tol=1e-9, script=script,
                                script_initial=(direction == "scripted" and rng.random() < 0.3), **({"stop_at_eval": rng.randint(5, 60)} if rng.random() < 0.05 else {})))
     return reqs
